@@ -111,6 +111,20 @@ def _selections(P, b):
             mode = "first"
         elif name.endswith(("Iterator::filter", "Iterator>::filter")):
             mode = "all"
+        elif name.endswith(("Iterator::filter_map", "Iterator>::filter_map")):
+            # `filter(p).filter_map(f)` merged into one `filter_map(|x| if p(x) { f(x) } else { None })`: every frame for which the
+            # closure can yield something is used - the conditions of its not-None returns
+            a = Q.call_args(b, S, blk, t)
+            cl = T.strip(a[-1])
+            if cl[0] == "agg" and cl[1] == "closure" and cl[2] in P.bodies and not T.has_call(a[0], "::rev"):
+                cb = P.bodies[cl[2]]
+                for (rb_, j_, term_, conds_, _sp) in TB.return_alternatives(cb, P):
+                    tt_ = T.strip(term_)
+                    if tt_[0] == "agg" and tt_[3] == "None":
+                        continue
+                    if any(_frame_field(c, f_) for c in conds_ for f_ in FRAME_FIELDS):
+                        out.append(("all", list(conds_), blk))
+            continue
         else:
             continue
         a = Q.call_args(b, S, blk, t)
@@ -323,14 +337,17 @@ def _frames_field_fed(b, S, fr):
     for gb, gt in Q.calls(b, ["::extend", "::append"]):
         ga = Q.call_args(b, S, gb, gt)
         gf = {x[2] for x in T.walk(ga[0]) if x[0] == "field" and isinstance(x[2], str)}
-        if (flds & gf) and T.has_call(ga[1], "parse_frames_with_offset") and any(x[0] == "field" and x[2] == "buffer" for x in T.walk(ga[1])):
+        if (flds & gf) and T.has_call(ga[1], "::parse_frames") and any(x[0] == "field" and x[2] == "buffer" for x in T.walk(ga[1])):
             return True
     return False
 
 
 def rule_R3(ctx):
     P = ctx.program
-    b = P.method1("Http2FingerprintExtractor", "add_bytes")
+    # add_bytes is read with the parser's `parse_frames_with_offset` (= parse_frames + the sum of the frame sizes) and the equivalent
+    # `calculate_frames_bytes_consumed` written out at their calls: the same statements whichever of them add_bytes uses
+    b0 = P.method1("Http2FingerprintExtractor", "add_bytes")
+    b = P.inlined_view(b0.path, ("::parse_frames_with_offset", "akamai_extractor::calculate_frames_bytes_consumed"))
     S = T.Slicer(b, P)
     ext = Q.calls(b, "extend_from_slice")
     ok1 = False
@@ -358,13 +375,13 @@ def rule_R3(ctx):
     okf = False
     for blk, t in ex:
         a = Q.call_args(b, S, blk, t)
-        okf = (T.has_call(a[0], "parse_frames_with_offset") and any(x[0] == "field" and x[2] == "buffer" for x in T.walk(a[0]))) or _frames_field_fed(b, S, a[0])
+        okf = (T.has_call(a[0], "::parse_frames") and any(x[0] == "field" and x[2] == "buffer" for x in T.walk(a[0]))) or _frames_field_fed(b, S, a[0])
     # the frames handed to the one-shot function cover the stream from its start: either every call parses from the stream start, or the
     # frames of earlier calls are kept and extended (parsing only buffer[parsed_offset..] forgets frames completed by earlier chunks)
     for blk, t in ex:
         a = Q.call_args(b, S, blk, t)
         fr = a[0]
-        from_tail = T.has_call(fr, "parse_frames_with_offset") and any(x[0] == "field" and x[2] == "parsed_offset" for x in T.walk(fr))
+        from_tail = T.has_call(fr, "::parse_frames") and any(x[0] == "field" and x[2] == "parsed_offset" for x in T.walk(fr))
         accumulated = any(x[0] == "field" and x[2] not in ("buffer", "parsed_offset", "parser", "fingerprint") and isinstance(x[2], str) for x in T.walk(T.strip(fr))
                           if x[0] == "field" and any(y[0] == "param" and y[1] == 0 for y in T.walk(x[1])))
         grows = False
@@ -372,7 +389,7 @@ def rule_R3(ctx):
             for gb, gt in Q.calls(b, ["Vec::<T, A>::extend", "::extend", "::append", "Vec::<T, A>::push", "extend_from_slice"]):
                 ga = Q.call_args(b, S, gb, gt)
                 if any(x[0] == "field" and x[2] not in ("buffer",) and isinstance(x[2], str) and any(y[0] == "param" and y[1] == 0 for y in T.walk(x[1])) for x in T.walk(ga[0])) \
-                        and T.has_call(ga[1], "parse_frames_with_offset") and C.dominates(b, gb, blk):
+                        and T.has_call(ga[1], "::parse_frames") and C.dominates(b, gb, blk):
                     grows = True
         whole = (not from_tail) or (accumulated and grows)
         ctx.check(whole, "R3", "add_bytes:whole-stream",
@@ -382,7 +399,7 @@ def rule_R3(ctx):
                   "(PRIORITY|SETTINGS split after the first frame gives `..|00|0|` instead of `..|00|3:0:0:201|`)", ctx.loc(b, blk))
     # whether parsing is attempted depends on the bytes buffered so far, not on how they were delivered: every length test that
     # decides the parse is a test of the slice that is parsed (never of the chunk just received)
-    for pb, pt in Q.calls(b, "parse_frames_with_offset"):
+    for pb, pt in Q.calls(b, "::parse_frames"):
         pa = Q.call_args(b, S, pb, pt)
         parsed = T.pp(T.canon_value(T.strip(pa[-1])))
         for c in Q.canon_conds(P, T.dom_conds(b, S, pb)):
@@ -397,7 +414,7 @@ def rule_R3(ctx):
                       "completes the first frames never triggers extraction, so the result depends on how the stream was divided" % (who[:40], o[0], T.fold_int(o[2])), ctx.loc(b, pb))
     # offset bookkeeping: the next parse starts where this one stopped = (offset this parse started at) + (bytes it consumed)
     starts = []
-    for pb, pt in Q.calls(b, "parse_frames_with_offset"):
+    for pb, pt in Q.calls(b, "::parse_frames"):
         pa = Q.call_args(b, S, pb, pt)
         for x in T.walk(pa[-1]):
             if x[0] == "call" and x[1].endswith("::index") and len(x[2]) == 2:
@@ -414,12 +431,12 @@ def rule_R3(ctx):
             okk = False
             if term[0] == "call" and term[1].endswith(("saturating_add", "wrapping_add", "checked_add")) and len(term[2]) == 2:
                 a0, a1 = term[2]
-                okk = T.pp(T.canon_value(T.strip(a0))) in starts and T.has_call(a1, "parse_frames_with_offset")
+                okk = T.pp(T.canon_value(T.strip(a0))) in starts and T.has_call(a1, "::parse_frames")
             elif term[0] == "binop" and term[1].startswith("Add"):
-                okk = T.pp(T.canon_value(T.strip(term[2]))) in starts and T.has_call(term[3], "parse_frames_with_offset")
+                okk = T.pp(T.canon_value(T.strip(term[2]))) in starts and T.has_call(term[3], "::parse_frames")
             elif term[0] == "field" and T.strip(term[1])[0] == "binop" and T.strip(term[1])[1].startswith("Add"):
                 bt = T.strip(term[1])
-                okk = T.pp(T.canon_value(T.strip(bt[2]))) in starts and T.has_call(bt[3], "parse_frames_with_offset")
+                okk = T.pp(T.canon_value(T.strip(bt[2]))) in starts and T.has_call(bt[3], "::parse_frames")
             ctx.check(okk, "R3", "add_bytes:offset-advance@%d" % nupd, "parsed_offset = start of the parsed slice + bytes consumed",
                       "parsed_offset is advanced to %s, which is not (offset the parsed slice started at) + (bytes consumed): after a skipped preface the next parse starts "
                       "inside an already consumed frame (24 bytes early) and the extractor never reports" % T.pp(term)[:90], ctx.loc(b, i))
